@@ -56,7 +56,7 @@ class JWTAccessTokenClaims(JWTClaims):
 
     def _validate_space_separated_claim(self, claim_name):
         value = self.get(claim_name)
-        if value and not isinstance(value, (str, list, tuple, set)):
+        if value is not None and not isinstance(value, (str, list, tuple, set)):
             raise InvalidClaimError(claim_name)
         return self._validate_claim_value(claim_name)
 
